@@ -39,6 +39,9 @@ pub fn run(rep: &mut Report, thorough: bool) {
     }
     for (ci, cfg) in cfgs.iter().enumerate() {
         let tag = format!("cfg{}", ci);
+        if rep.secondary && ci >= 2 {
+            continue;
+        }
         if ci < 2 {
             crate::props::pairs::pair_histories_owned(rep, cfg, &format!("pair-histories-{}", tag), &crate::props::pairs::l2l4_frames(), Some(("C06", crate::props::pairs::is_syn, "synack-depends-on-history")));
         }
